@@ -977,7 +977,9 @@ fn run(c: &Case) -> Obs {
         // model side runs cram::fs::index -> Reader::query as one chain (ZeroSpan.index_then_query)
         "qry" | "zq" => run_qry(c),
         "midx" => c19_multi::run_midx(c),
-        "mqry" => c19_multi::run_mqry(c),
+        // `mzq`: as `mqry` (merged multi-slice containers, multi-reference slices), on files holding
+        // mapped reads whose CIGAR consumes no reference base; model side: ZeroSpan.index_then_query
+        "mqry" | "mzq" => c19_multi::run_mqry(c),
         "mqbad" => c19_multi::run_mqbad(c),
         "unm" => c19_multi::run_unm(c),
         "via" => c19_multi::run_via(c),
@@ -1290,6 +1292,20 @@ fn generate(rng: &mut Rng, tier: &str, w: &mut CaseWriter) {
     for i in 0..(if thorough { 3000 } else { 150 }) {
         let spec = gen_spec_zspan(rng, i);
         push_file_as(rng, w, &spec, 12, "zq");
+    }
+    // the same files cut into small slices, consecutive containers merged into multi-slice containers
+    for i in 0..(if thorough { 3000 } else { 150 }) {
+        let mut spec = gen_spec_zspan(rng, i);
+        spec.per_slice = match rng.below(4) {
+            0 => 1,
+            1 => 2,
+            2 => rng.range(1, 3) as usize,
+            _ => spec.per_slice,
+        };
+        let Some((mut a, _multi)) = c19_multi::mbase(rng, &spec, true) else { continue };
+        a.push(gen_regions(rng, &spec, 10));
+        a.push(rng.below(3).to_string());
+        w.push("mzq", a);
     }
 }
 
